@@ -226,6 +226,9 @@ static void c04_case(uint64_t idx)
 	// decoder and was re-initialised without lzma_end()
 	bool reused = vrng_chance(&r, 1, 5) && kind != D_FILE_INFO && kind != D_INDEX && kind != D_BLOCK && g_orig.n > 0 && g_orig.n < 200000;
 	if (reused) { spec.warm_in = g_orig.p; spec.warm_n = g_orig.n; hx_count("reused_handle_cases", 1); }
+	// a reused threaded decoder mostly works under a finite threading limit (memory accounting carried over from the
+	// first life would show there)
+	if (reused && kind == D_STREAM_MT && vrng_chance(&r, 2, 3)) spec.memlimit_threading = (1u << 16) + vrng_below(&r, 3u << 20);
 	alloc_mon mon; alloc_mon_init(&mon);
 	mon.huge_limit = 300u << 20;
 	// in a third of the reused-handle cases one allocation of the first life fails (the second life must not notice)
